@@ -135,10 +135,76 @@ def gen_f1(rng, force=None):
         clauses = [{"label": l, "body": actions(r.choice((0, 1, 1))) + simple_body(())} for l in ls]
         return [{"t": "loopcase", "clauses": clauses, "brk": brk, "brk_actions": [a for a in actions(r.choice((0, 1))) if a["t"] != "yield"]}]
 
+    ACTS = ("hook", "inc", "setb", "del", "yield")
+
+    def strip_dest(items):
+        """inside a foreach body: nothing appends by itself, and no action sits right behind a case label.  (nmfu
+        runs such a clause-leading action on the transition of the *next* byte, and the do-actions of the foreach
+        are prepended to that transition: the two swap places with respect to the procedural reading.  That is a
+        matter of statement semantics - C01, not decided here - so the family stays clear of it; DESIGN 8.4.)"""
+        for it in items:
+            if it["t"] in ("fixed", "field"):
+                it["dest"] = None
+            for key in ("body", "else"):
+                if isinstance(it.get(key), list):
+                    strip_dest(it[key])
+            if "brk_actions" in it:
+                it["brk_actions"] = []
+            for cl in it.get("clauses", ()):
+                while cl["body"] and cl["body"][0]["t"] in ACTS:
+                    cl["body"].pop(0)
+                strip_dest(cl["body"])
+        return items
+
+    def foreach_item(depth=0):
+        """foreach { matches / LL(1) blocks } do { actions on $last }: the do-actions run once for every byte the
+        body consumes, before the body's own actions on that byte; nothing in the body appends by itself"""
+        body = []
+        for _ in range(r.choice((1, 1, 2))):
+            k = r.random()
+            if k < 0.3:
+                body += block_item()
+            elif k < 0.5:
+                body.append(lit())
+            elif k < 0.7:
+                lo, hi = r.choice(pools)
+                body.append({"t": "fixed", "cls": [lo, hi], "n": r.choice((1, 2, 3)), "dest": None})
+            elif k < 0.9 or depth:
+                lo, hi = r.choice(pools)
+                body.append({"t": "field", "cls": [lo, hi], "dest": None})
+                body.append({"t": "lit", "bytes": [r.choice([c for c in PUN + LET + DIG if not (lo <= c <= hi)])], "ci": False, "bin": False})
+            else:
+                body.append(foreach_item(depth + 1))
+                body.append(lit())
+            if r.random() < 0.3:
+                body += [a for a in actions(1) if a["t"] != "del"]
+        strip_dest(body)
+        acts = []
+        kinds = ["inc", "hook", "applast", "applast", "condhook"]      # (a yield is not accepted among do-actions)
+        for kk in r.sample(kinds, r.choice((1, 2, 2, 3))):
+            if kk == "inc":
+                acts.append({"t": "inc", "var": "n0", "k": 1})
+            elif kk == "hook":
+                acts.append({"t": "hook", "name": "h0"})
+            elif kk == "applast" and strs:
+                if not any(a["t"] == "applast" for a in acts):
+                    acts.append({"t": "applast", "dest": r.choice(strs)["name"]})
+            elif kk == "condhook":
+                acts.append({"t": "condhook", "name": "h1", "byte": r.choice(LET[:8] + DIG[:3])})
+        if not acts:
+            acts.append({"t": "hook", "name": "h0"})
+        return {"t": "foreach", "body": body, "acts": acts}
+
     def segment():
         """a few match items, each possibly followed by actions; always ends with a closed match"""
         seg = []
         for _ in range(r.choice((1, 2, 3))):
+            if force.get("foreach") and r.random() < 0.45:
+                seg.append(foreach_item())
+                if seg[-1]["body"][-1]["t"] not in ("lit", "fixed"):
+                    seg.append(lit())
+                seg += actions(r.choice((0, 0, 1)))
+                continue
             k = r.random()
             if force.get("blocks", True) and k < 0.22:
                 seg += block_item()
@@ -249,7 +315,7 @@ def render_item(it, ind):
         m = "/%s{%d}/" % (cls_text(*it["cls"]), it["n"])
         return [p + ("%s += %s;" % (it["dest"], m) if it["dest"] else m + ";")]
     if t == "field":
-        return [p + "%s += /%s+/;" % (it["dest"], cls_text(*it["cls"]))]
+        return [p + ("%s += /%s+/;" % (it["dest"], cls_text(*it["cls"])) if it["dest"] else "/%s+/;" % cls_text(*it["cls"]))]
     if t == "wait":
         return [p + "wait %s;" % esc(it["bytes"])]
     if t == "hook":
@@ -262,6 +328,18 @@ def render_item(it, ind):
         return [p + "delete %s;" % it["dest"]]
     if t == "yield":
         return [p + "yield %s;" % it["code"]]
+    if t == "applast":
+        return [p + "%s += [$last];" % it["dest"]]
+    if t == "condhook":
+        return [p + "if $last == %d {" % it["byte"], p + "    %s();" % it["name"], p + "}"]
+    if t == "foreach":
+        L = [p + "foreach {"]
+        for x in it["body"]:
+            L += render_item(x, ind + 1)
+        L.append(p + "} do {")
+        for x in it["acts"]:
+            L += render_item(x, ind + 1)
+        return L + [p + "}"]
     if t == "opt":
         L = [p + "optional {"]
         for x in it["body"]:
@@ -386,6 +464,8 @@ class F1Model:
         self.oos_events = []      # (k, dest) out-of-space instants
         self.terminal = None      # (code, k)
         self.finished_clean = False
+        self.each = []            # do-actions of the enclosing foreach statements, outermost first
+        self.last = None
 
     # ---- primitives
     def snap(self):
@@ -406,9 +486,25 @@ class F1Model:
         return self.data[self.pos]
 
     def consume(self):
+        self.last = self.data[self.pos]
         self.pos += 1
-        self.since = []
-        self.silent_since = False
+        if not self.each:
+            self.since = []
+            self.silent_since = False
+            return
+        # do-actions of the enclosing foreach statements run on this byte's transition, ahead of whatever was still
+        # pending from before the byte: if one of them fails, those pending actions may or may not have run
+        n0 = len(self.events)
+        try:
+            for acts in self.each:
+                for a in acts:
+                    self.run_item(a)
+        except PErr:
+            # the byte whose do-action could not be performed is the offending byte
+            self.pos -= 1
+            raise
+        self.since = list(range(n0, len(self.events)))
+        self.silent_since = any(a["t"] in ("inc", "applast") for acts in self.each for a in acts)
 
     def emit(self, kind, name):
         self.events.append({"kind": kind, "name": name, "k": self.pos, "snap": self.snap(), "opt": False, "taint": self.taint})
@@ -454,13 +550,15 @@ class F1Model:
             c = self.peek(("field", 0))
             if not (lo <= c <= hi):
                 self.error("nomatch")
-            self.append(it["dest"], c)
+            if it["dest"]:
+                self.append(it["dest"], c)
             self.consume()
             while True:
                 c = self.peek(("field", 1))
                 if not (lo <= c <= hi):
                     break
-                self.append(it["dest"], c)
+                if it["dest"]:
+                    self.append(it["dest"], c)
                 self.consume()
         elif t == "wait":
             self.wait(it["bytes"])
@@ -477,6 +575,19 @@ class F1Model:
             self.silent_since = True
         elif t == "yield":
             self.emit("yield", it["code"])
+        elif t == "applast":
+            self.append(it["dest"], self.last)
+            self.silent_since = True
+        elif t == "condhook":
+            if self.last == it["byte"]:
+                self.emit("hook", it["name"])
+        elif t == "foreach":
+            self.each.append(it["acts"])
+            try:
+                for x in it["body"]:
+                    self.run_item(x)
+            finally:
+                self.each.pop()
         elif t == "opt":
             c = self.peek(("opt", 0))
             if c == it["body"][0]["bytes"][0]:
@@ -833,7 +944,7 @@ def f1_inputs(rng, spec, count):
             if rng.random() < 0.4 and len(it["bytes"]) > 1:
                 junk += bytes(it["bytes"][:-1])
             return junk + bytes(it["bytes"])
-        if t == "try":
+        if t in ("try", "foreach"):
             return b"".join(sample(x, stress) for x in it["body"])
         if t == "opt":
             return b"".join(sample(x, stress) for x in it["body"]) if rng.random() < 0.6 else b""
@@ -1369,6 +1480,27 @@ def family_tasks(prop, tier, root):
         if fam == "F6":
             uplan = dict(plan, maxlen=320, n_sched=2, single_cuts=False, exhaustive_n=3)
         tasks.append(("sim", root, idx, unit, uplan))
+    # F7: frame programs with foreach statements (do-actions once per consumed byte: counters, $last appends, yields);
+    # separate index range and stream, so that the units above are the same as before this family existed
+    if prop in ("C10", "C03", "C02"):
+        for j in range(n // 4):
+            idx = 560000 + j
+            rng = sched.rng_for(root, "family-F7", idx)
+            force = {"foreach": True, "yield": rng.random() < 0.6}
+            if prop == "C03":
+                force["try"] = rng.choice(("oos-finish", "oos-wait", "none"))
+            spec = gen_f1(rng, force)
+            xs = f1_inputs(rng, spec, 10)
+            ro = sched.rng_for(root, "family-options", idx)
+            f = {"indirect": True} if prop == "C10" else {}
+            if prop == "C03":
+                f["storage"] = idx % 4
+            f["O"] = ro.choice((3, 3, 3, 2, 1, 0))
+            argv = workload.sample_argv(ro, need=spec["need"], force=f)
+            canaries = {o["name"]: 90 for o in spec.get("outputs", []) if o.get("canary")}
+            unit = {"label": "F7:%d" % idx, "source": spec["source"], "argv": argv, "must_inputs": [x.hex() for x in xs],
+                    "family": {k: v for k, v in spec.items() if k != "source"}, "canaries": canaries}
+            tasks.append(("sim", root, idx, unit, plan))
     return tasks
 
 
